@@ -74,7 +74,11 @@ MaxK(k, a, b) == IF Lt(k, a, b) THEN b ELSE a
 ClampDomain(k, lo, hi) == Lt(k, lo, hi)
 Clamp(k, x, lo, hi) == MinK(k, MaxK(k, x, lo), hi)
 Abs(k, a)    == AbsW(k, a)
-NegAbs(k, a) == IF IsNeg(k, a) THEN a ELSE NegW(a)
+\* neg_abs of an unsigned vector returns the *signed* vector type and is defined
+\* by AVEL (code, scalar overload and upstream tests alike) as neg_abs of the
+\* value converted to the signed counterpart, so both kinds act on the signed
+\* reading of the bit pattern.
+NegAbs(k, a) == IF SignBit(a) = 1 THEN a ELSE NegW(a)
 Negate(m, a) == IF m THEN NegW(a) ELSE a
 Blend(m, a, b) == IF m THEN a ELSE b
 Keep(m, a)  == IF m THEN a ELSE Zeros(Len(a))
